@@ -140,13 +140,16 @@ def make_dill_twin(ctx, hist, w, prep):
 # Harness-side repairs of a clone ("assists").  They are applied ONLY to classify a divergence that was already
 # observed on the unassisted clone: a divergence that disappears under assist X gets the key suffix ':unless(X)', so
 # that each independent restore defect has its own key and does not mask other failures of the same searcher.
-ASSISTS = ("configure_scheduler", "gpmodel-rng", "rc_returned_pos", "grid-order", "grid-allow_duplicates")
+ASSISTS = ("configure_scheduler", "gpmodel-rng", "num_evaluations", "rc_returned_pos", "grid-order",
+           "grid-allow_duplicates")
 
 
 def applicable_assists(searcher):
     out = ["configure_scheduler"]
     if _gpmodel(searcher) is not None:
         out.append("gpmodel-rng")
+    if hasattr(getattr(searcher, "state_transformer", None), "_num_evaluations"):
+        out.append("num_evaluations")
     if hasattr(searcher, "_rc_returned_pos") and getattr(searcher, "_restrict_configurations", None) is not None:
         out.append("rc_returned_pos")
     if hasattr(searcher, "hp_values_combinations"):
@@ -195,6 +198,11 @@ def make_clone_twin(ctx, hist, w, prep, assists=()):
         g_o, g_c = _gpmodel(searcher_of(w.s)), _gpmodel(clone)
         if g_o is not None and g_c is not None:
             g_c.random_state.set_state(g_o.random_state.get_state())
+    if "num_evaluations" in assists:
+        st_o = getattr(searcher_of(w.s), "state_transformer", None)
+        st_c = getattr(clone, "state_transformer", None)
+        if hasattr(st_o, "_num_evaluations") and hasattr(st_c, "_num_evaluations"):
+            st_c._num_evaluations = dict(st_o._num_evaluations)
     if "rc_returned_pos" in assists:
         if getattr(clone, "_restrict_configurations", None) is not None and getattr(clone, "_rc_returned_pos", 0) is None:
             clone._rc_returned_pos = set()
@@ -298,7 +306,7 @@ def classify(o_orig, o_twin):
     return "continuation-differs:%s->%s" % (o_orig[0], o_twin[0])
 
 
-FLOAT_TOL = 1e-7
+FLOAT_TOL = 1e-5
 NEAR = [0]  # number of observations accepted by the tolerance (reported in coverage)
 
 
